@@ -303,7 +303,11 @@ fn c16(a: &Args) {
                         total_case(&mut col, &mut seen, "inflate", &format!("{}{}{}", &seed[..s], "9".repeat(n), &seed[e..]));
                     }
                 }
-                for lit in ["0x7fffffffffffffff", "0xffffffffffffffff", "0xfffffffffffffffff", "-9223372036854775808", "1e400", "1.5e-400", "1e99999999999999999999"] {
+                for lit in [
+                    "0x7fffffffffffffff", "0xffffffffffffffff", "0xfffffffffffffffff", "-9223372036854775808", "1e400", "1.5e-400", "1e99999999999999999999",
+                    "-0x8000000000000000", "0x8000000000000000", "-0x7fffffffffffffff", "-0xffffffffffffffff", "-0x00008000000000000000", "0x10000000000000000",
+                    "-9223372036854775809", "9223372036854775808", "-0", "-0x0", "0x", "-0x", "1e-", "0e0", "-.5e+3", "5.", "1e+400", "-1e400", "0x7FFFFFFFFFFFFFFF",
+                ] {
                     if col.next_case("inflate") {
                         total_case(&mut col, &mut seen, "inflate", &format!("{}{}{}", &seed[..s], lit, &seed[e..]));
                     }
